@@ -601,24 +601,30 @@ func (s *State) runAll(resume bool) {
 		if main.done {
 			return
 		}
-		var en []*Thread
+		var en, all []*Thread
 		curEnabled := false
 		if !s.cur.done && s.enabled(s.cur) {
-			en = append(en, s.cur)
+			all = append(all, s.cur)
 			curEnabled = true
+			if !s.sleep[s.cur.id] {
+				en = append(en, s.cur)
+			}
 		}
 		bound := s.preemptBound()
 		if !curEnabled || s.preempts < bound {
 			for _, t := range s.threads {
 				if t != s.cur && !t.done && s.enabled(t) {
-					en = append(en, t)
+					all = append(all, t)
+					if !s.sleep[t.id] {
+						en = append(en, t)
+					}
 				}
 			}
 		}
-		if len(en) == 0 {
+		if len(all) == 0 {
 			s.deadlock()
 		}
-		t := en[s.schedChoice(en)]
+		t := s.schedChoice(en, all)
 		if t != s.cur && curEnabled {
 			s.preempts++
 		}
@@ -673,9 +679,11 @@ func (s *State) whereOf(t *Thread) string {
 // without sleep sets). Data branches are unaffected.
 
 type schedPt struct {
+	sleep    []int // sleep set in effect at this point
 	tracePos int   // index in the decision trace of this scheduling choice (-1: no choice was recorded)
 	enabled  []int // thread ids in the order offered
 	chosen   int
+	chosenID int
 	preempts int
 }
 
@@ -690,35 +698,63 @@ func (s *State) dporOn() bool {
 	return s.cfg != nil && s.cfg.DPOR && s.atomic == 0
 }
 
-func (s *State) schedChoice(en []*Thread) int {
+// schedChoice picks the next thread. en are the enabled threads that may be chosen now (awake),
+// all the enabled threads including sleeping ones. With DPOR the decision is recorded as a thread
+// id whenever more than one thread is enabled at all, so that a recorded schedule means the same
+// thing whatever sleep sets are in effect when it is replayed.
+func (s *State) schedChoice(en, all []*Thread) *Thread {
 	ids := make([]int, len(en))
 	for i, t := range en {
 		ids[i] = t.id
 	}
 	pt := schedPt{tracePos: -1, enabled: ids, preempts: s.preempts}
-	k := 0
-	if len(en) > 1 {
-		if !s.dporOn() {
-			k = s.choice(len(en))
-		} else {
-			pt.tracePos = len(s.trace)
-			if s.dpos < len(s.forced) {
-				d := s.forced[s.dpos]
-				s.dpos++
-				s.trace = append(s.trace, d)
-				k = d >> 2
-				if k >= len(en) {
-					panic(execAbort{"engine", "schedule replay diverged"})
+	for t := range s.sleep {
+		pt.sleep = append(pt.sleep, t)
+	}
+	var pick *Thread
+	if !s.dporOn() {
+		pick = en[0]
+		if len(en) > 1 {
+			pick = en[s.choice(len(en))]
+		}
+	} else if len(all) > 1 {
+		pt.tracePos = len(s.trace)
+		if s.dpos < len(s.forced) {
+			d := s.forced[s.dpos]
+			s.dpos++
+			s.trace = append(s.trace, d)
+			s.prefixConsumed()
+			for _, t := range all {
+				if t.id == d>>2 {
+					pick = t
 				}
-			} else {
-				s.dpos++
-				s.trace = append(s.trace, 0)
 			}
+			if pick == nil {
+				panic(execAbort{"engine", "schedule replay diverged (recorded thread not enabled)"})
+			}
+		} else {
+			if len(en) == 0 {
+				panic(execAbort{"pruned", "sleep-set blocked (redundant interleaving)"})
+			}
+			pick = en[0]
+			s.dpos++
+			s.trace = append(s.trace, pick.id<<2)
+		}
+	} else {
+		if len(en) == 0 {
+			panic(execAbort{"pruned", "sleep-set blocked (redundant interleaving)"})
+		}
+		pick = en[0]
+	}
+	pt.chosen = -1
+	for i, t := range en {
+		if t == pick {
+			pt.chosen = i
 		}
 	}
-	pt.chosen = k
+	pt.chosenID = pick.id
 	s.schedPts = append(s.schedPts, pt)
-	return k
+	return pick
 }
 
 // footprint of the operation th is about to perform: object keys and whether it is a write-like access
@@ -770,6 +806,27 @@ func (s *State) dporBefore(th *Thread) {
 	if len(keys) == 0 {
 		return
 	}
+	// wake every sleeping thread whose pending operation conflicts with this one
+	for tid := range s.sleep {
+		if tid >= len(s.threads) {
+			continue
+		}
+		ok2, w2 := s.footprint(s.threads[tid])
+		if !(write || w2) {
+			continue
+		}
+		hit := false
+		for _, a := range keys {
+			for _, b := range ok2 {
+				if a == b {
+					hit = true
+				}
+			}
+		}
+		if hit {
+			delete(s.sleep, tid)
+		}
+	}
 	s.tick(th)
 	cur := len(s.schedPts) - 1
 	ev := &accEv{tid: th.id, clk: th.vc.get(th.id), pt: cur}
@@ -809,8 +866,17 @@ func (s *State) backtrack(pt int, tid int) {
 		if j == p.chosen {
 			return
 		}
-		alt := append(append([]int{}, s.trace[:p.tracePos]...), j<<2)
-		s.ex.pushOnce(alt)
+		alt := append(append([]int{}, s.trace[:p.tracePos]...), p.enabled[j]<<2)
+		var base []int
+		for _, t := range p.sleep {
+			if t != p.enabled[j] {
+				base = append(base, t)
+			}
+		}
+		if base == nil {
+			base = []int{}
+		}
+		s.ex.pushOnce(s.withSleep(alt, base, p.chosenID))
 	}
 	for j, id := range p.enabled {
 		if id == tid {
